@@ -1,7 +1,7 @@
 CONSTANTS Vals = {1, 2}
           MaxSize = 3
-          Caps = {0}
-          Keeps = {FALSE}
+          Caps = {1, 2, 3}
+          Keeps = {FALSE, TRUE}
 SPECIFICATION Spec
 CONSTRAINT SizeBound
 INVARIANTS CapInv Laws
